@@ -165,3 +165,16 @@ def exprEnergyOfSample (modelLabels sampleLabels : List Label) (row : List Rat) 
   if e.vars.length = 0 then e.qb.off else qbEnergy e.qb (fun i => (gatherRow modelLabels sampleLabels row e).getD i 0)
 
 end Feas
+
+namespace Feas
+
+/-! ### round 8: the first branch of `from_samples_cqm` after its repair
+
+`if not isinstance(samples_like, abc.Mapping) and len(samples_like) == 0:` — ONE sample given as a mapping is never "no rows"
+(`len({}) == 0` for a model without variables used to take the empty branch while `check_feasible({})` / `violations({})` /
+`from_samples_cqm([{}], cqm)` evaluate the constant constraints). -/
+def fromSamplesCqmArg (isMapping : Bool) (lenArg n : Nat) (atol rtol : Rat) (garbage : Nat → Nat → Bool) (obj : Nat → Rat)
+    (cs : List CEval) : VResult × Bool :=
+  if (!isMapping && lenArg == 0) = true then (emptyResult obj cs, false) else (fromSamplesCqm n atol rtol garbage obj cs, true)
+
+end Feas
